@@ -13,7 +13,7 @@ func init() {
 }
 
 func checkC25(r *Run) {
-	r.Explain = "C25: (R1) IntroductionMessage.Verify succeeds only with mirror != ours, protocol version >= minimum, extra data carrying this network's blockchain pubkey (copied from Extra[:33] and compared), valid verification parameters, a parseable user agent — and rejects for nothing else; (R2) a connection is marked introduced only from IntroductionMessage.process after Verify succeeded; (R3) before introduction only Introduction, Disconnect and GivePeers messages are dispatched to their handler, and asyncMessage.process is called from nowhere else; (R4) every slice/index of the untrusted Extra bytes is in bounds on every path."
+	r.Explain = "(R3+) no message process method is called except through the gated dispatch of onMessageEvent, and every message type's Handle only queues itself (recordMessageEvent(self, mc)) without any daemon operation before the gate; C25: (R1) IntroductionMessage.Verify succeeds only with mirror != ours, protocol version >= minimum, extra data carrying this network's blockchain pubkey (copied from Extra[:33] and compared), valid verification parameters, a parseable user agent — and rejects for nothing else; (R2) a connection is marked introduced only from IntroductionMessage.process after Verify succeeded; (R3) before introduction only Introduction, Disconnect and GivePeers messages are dispatched to their handler, and asyncMessage.process is called from nowhere else; (R4) every slice/index of the untrusted Extra bytes is in bounds on every path."
 	r.NotDec = "behaviour of the user-agent parser itself; network-level sequencing"
 	reqs := []Req{
 		req("not a connection to ourselves", "$0.Mirror != $1.Mirror"),
@@ -137,7 +137,7 @@ func checkC25(r *Run) {
 }
 
 func checkC33(r *Run) {
-	r.Explain = "C33: (R1) GiveBlocksMessage.process executes blocks only through the signature-checking Visor path, skips blocks at or below the head, and stops at the first failure; (R2) after progress it requests the next blocks; announce/get handlers request blocks above the head; (R3) gap-freeness is C04-R3 (seq == head+1)."
+	r.Explain = "(R1+) the executed block's body is bound to the signed header: verifyBlockHeader (on the execution path for every non-genesis block) requires BodyHash and PrevHash to match, the signature is checked over the header hash; C33: (R1) GiveBlocksMessage.process executes blocks only through the signature-checking Visor path, skips blocks at or below the head, and stops at the first failure; (R2) after progress it requests the next blocks; announce/get handlers request blocks above the head; (R3) gap-freeness is C04-R3 (seq == head+1)."
 	r.NotDec = "convergence for concrete delivery orders (a history property)"
 	fn := r.fn("C33-R1", "daemon.GiveBlocksMessage.process")
 	if fn == nil {
@@ -219,6 +219,17 @@ func checkC33(r *Run) {
 
 // ruleBlockSigChain: Visor.ExecuteSignedBlock -> executeSignedBlock (signature) in one Update.
 func ruleBlockSigChain(r *Run, rule string) {
+	// the signature covers the header; the header binds the body (BodyHash) and the parent (PrevHash): both are
+	// checked on the execution path itself, so a genuine header+signature cannot carry a foreign body
+	r.RequireOnSuccess(rule, "visor.Blockchain.verifyBlockHeader",
+		req("body hash of the block equals the signed header's BodyHash", "coin.BlockBody.Hash($2.Body) == $2.Head.BodyHash"),
+		req("parent hash is the head's header hash", "$2.Head.PrevHash == coin.Block.HashHeader(visor.Blockchain.Head($0, $1)#0.Block)"))
+	r.RequireOnSuccess(rule, "visor.Blockchain.processBlock",
+		req("header verified for every non-genesis block", "when: 0 < visor.Blockchain.Len($0, $1)#0 => ok(visor.Blockchain.verifyBlockHeader($0, $1, $2.Block))"))
+	r.RequireAtCall(rule, "visor.Blockchain.ExecuteBlock", "iface:visor.chainStore.AddBlock", 1,
+		req("block stored only after processBlock accepted it", "ok(visor.Blockchain.processBlock($0, $1, *))"))
+	r.RequireOnSuccess(rule, "coin.SignedBlock.VerifySignature",
+		req("signature checked over the header hash", "ok(cipher.VerifyPubKeySignedHash($1, $0.Sig, coin.Block.HashHeader($0.Block)))"))
 	r.RequireOnSuccess(rule, "visor.Visor.executeSignedBlock",
 		req("publisher signature verified with the configured key", "ok(coin.SignedBlock.VerifySignature($2, $0.Config.BlockchainPubkey))"))
 	if fn := r.fn(rule, "visor.Visor.ExecuteSignedBlock:1"); fn != nil {
